@@ -173,9 +173,15 @@ class Evaluator:
             elif op in ('==', '!=', '<', '>', '<=', '>='):
                 # usual arithmetic conversions: if either operand is unsigned 32-bit, compare as unsigned
                 tx, ty = T(self.f, strip_lv(e['x']).get('t')), T(self.f, strip_lv(e['y']).get('t'))
-                if (tx.get('bits') == 32 and tx.get('sg') is False) or (ty.get('bits') == 32 and ty.get('sg') is False):
-                    a &= 0xffffffff
-                    b &= 0xffffffff
+                wide = max(tx.get('bits') or 0, ty.get('bits') or 0)
+                if wide == 64 and ((tx.get('bits') == 64 and tx.get('sg') is False) or (ty.get('bits') == 64 and ty.get('sg') is False)):
+                    if isinstance(a, int) and isinstance(b, int):
+                        a &= 0xffffffffffffffff
+                        b &= 0xffffffffffffffff
+                elif wide <= 32 and ((tx.get('bits') == 32 and tx.get('sg') is False) or (ty.get('bits') == 32 and ty.get('sg') is False)):
+                    if isinstance(a, int) and isinstance(b, int):
+                        a &= 0xffffffff
+                        b &= 0xffffffff
                 return int({'==': a == b, '!=': a != b, '<': a < b, '>': a > b, '<=': a <= b, '>=': a >= b}[op])
             elif op == ',':
                 return b
